@@ -451,16 +451,17 @@ def is_built_list(ctx: Context, cfg, nid: int, expr: ast.expr) -> bool:
     return len(cre) == 1 and cre[0][1].kind == "assign" and cre[0][1].path == () and isinstance(cre[0][1].value, ast.List)
 
 
-def _all_elems(seqs) -> list | None:
-    """Every element term that can occur in the list; None when a splice/insert makes that unknowable."""
+def _all_elems(seqs, splices: bool = False) -> list | None:
+    """Every element term that can occur in the list; None when a splice/insert makes that unknowable.  With ``splices``
+    the spliced iterable itself stands for its elements (enough to ask "does everything derive from X")."""
     out = []
     for s in seqs:
         for tok in s:
-            if tok[0] == "elem":
+            if tok[0] == "elem" or (splices and tok[0] == "splice"):
                 if tok[1] not in out:
                     out.append(tok[1])
             elif tok[0] == "loop":
-                sub = _all_elems(tok[1])
+                sub = _all_elems(tok[1], splices)
                 if sub is None:
                     return None
                 out += [x for x in sub if x not in out]
@@ -1219,7 +1220,7 @@ def _g1(ctx: Context) -> None:
                          f"{fk}:_send_lines-arg", f"{short}: _send_lines receives {show(t, 100)}, not the whole payload", s.loc())
             elif is_built_list(ctx, cfg, s.node.id, a):
                 seqs = list_sequences(ctx, cfg, s.node, a)
-                elems = _all_elems(seqs)
+                elems = _all_elems(seqs, splices=True)
                 if elems is None:
                     ck.unknown("C09.G1", f"{short}: frames list has unrecognised effects: " + "; ".join(sorted(map(_show_seq, seqs))), s.loc())
                     continue
